@@ -458,6 +458,42 @@ def f_lmcall(a):
     return {"op": "lmcall", "sr": srmodel(a["sr"]), "G": a["G"], "s": a["s"], "res": enc_w(g.R, v)}
 
 
+class UnsupportedDraw(Exception):
+    pass
+
+
+def f_sample(a):
+    """LM.sample with a scripted `draw`: the generation loop of Generation.tla, one Draw/Stop per call of `draw`.
+
+    script entries are token names (a behaviour generated by TLC) or integers (an index into the support the CODE offers,
+    for random walks); when the script is used up, end-of-sequence is drawn."""
+    g = build(a["G"], a["sr"], a.get("names", "str"))
+    lm = _lm(a["backend"], g)
+    script = list(a["script"])
+    steps = []
+
+    def draw(p):
+        toks = sorted(lm.V, key=repr)
+        supp = [t for t in toks if p[t] != 0]
+        want = script[len(steps)] if len(steps) < len(script) else EOS_NAME
+        if isinstance(want, int):
+            y = supp[want % len(supp)]
+        else:
+            y = EOS if want == EOS_NAME else unt(want)
+        steps.append([tname(y), enc_w(g.R, float(p[y])), sorted(tname(t) for t in supp)])
+        if p[y] == 0 and y != EOS:
+            raise UnsupportedDraw(f"token {want!r} has probability zero at step {len(steps)}")
+        return y
+
+    kw = {}
+    if a.get("bound") is not None:
+        kw["max_tokens"] = a["bound"]
+    ys, P = lm.sample(draw=draw, **kw)
+    out = {"op": "sample", "sr": srmodel(a["sr"]), "G": a["G"], "eos": EOS_NAME, "ys": [tname(y) for y in ys],
+           "steps": steps, "res": enc_w(g.R, float(P)), "bound": a["bound"] if a.get("bound") is not None else -1}
+    return out
+
+
 def f_pnextseq(a):
     g = build(a["G"], a["sr"], a.get("names", "str"))
     lm = _lm(a["backend"], g)
@@ -503,7 +539,7 @@ def f_treesumrl(a):
     return {"op": "treesumrl", "sr": "Rat", "G": G, "chart": [[x, enc_w(us.Float, float(ch[x]))] for x in nts]}
 
 
-FUNCS = {"treesumrl": f_treesumrl, "pnextrl": f_pnextrl, "pnextseq": f_pnextseq, "mapbool": f_mapbool, "pnext": f_pnext, "ntw": f_ntw, "ntw_vs_parser": f_ntw_vs_parser, "lmcall": f_lmcall,"parse": f_parse, "prefix": f_prefix, "prefixgrammar": f_prefixgrammar, "derivative": f_derivative,
+FUNCS = {"sample": f_sample, "treesumrl": f_treesumrl, "pnextrl": f_pnextrl, "pnextseq": f_pnextseq, "mapbool": f_mapbool, "pnext": f_pnext, "ntw": f_ntw, "ntw_vs_parser": f_ntw_vs_parser, "lmcall": f_lmcall,"parse": f_parse, "prefix": f_prefix, "prefixgrammar": f_prefixgrammar, "derivative": f_derivative,
          "transform": f_transform, "treesum": f_treesum, "lang": f_lang, "mask": f_mask, "addeos": f_addeos,
          "normalize": f_normalize, "derivcall": f_derivcall, "explen": f_explen}
 
